@@ -14,6 +14,15 @@ CLAIMED = {
         note="trusted: rustc's checks; RoaringBitmap set algebra; syn's parse",
         design="5/C03",
     ),
+    "C04": dict(
+        technique="static analysis: syn syntax-tree rules over the four emitters and the dfa.rs getters (dimension/base typing of format holes, cell roles, field-flow provenance, isomorphism coverage, defined-vs-called generated names, flag agreement)",
+        text="Decides the data side of C04 on /repo's current source for all four emitters: every state-id hole carries the module's array base exactly once and id holes none, table builders receive the module's own base, "
+        "each `[k]=v` cell takes key and value from the same row, the getters build rows from the fields the property names (literal, description, target, fallback level, source state, decreasing-length ids, one shared command-id set), "
+        "every field a shared-shape function prints is compared by isomorphic_to and chunk_by never groups without it, generated function names are defined as called and the registration line names the command and the entry function, "
+        "tables and the code reading them are emitted under the same flags. It does NOT decide that the tables equal the automaton value by value, nor the reader logic of the fish/zsh/pwsh skeletons.",
+        note="trusted: rustc's checks; syn's parse; the syntactic type inference treats unknown types as unknown; type aliases StateId/LiteralId/CommandId carry the dimensions",
+        design="5/C04",
+    ),
     "C14": dict(
         technique="static analysis: rustc-checked type-level witnesses (auto-trait reachability, compile-fail with twins) + syn span-use / ordering rules + MIR reachability",
         text="Decides non-interference of layout-dependent data with the output: no HumanSpan and no ExprId is reachable in the types the emitters receive (auto-trait witnesses compiled against /repo, each with a failing twin), arena ids have no ordering and their number is read only by Index/Display (Display unreachable from main), "
@@ -44,10 +53,10 @@ CLAIMED = {
     ),
     "C06": dict(
         technique="static analysis: MIR may-panic / recursion / exit-status inventory (rustc_private driver) + CFG ordering of file creation vs. validation",
-        text="Decides on the MIR of the shipped targets that every panic-capable site reachable from main is one of the inventoried, individually discharged sites (new or moved sites are reported), that every recursion is tabled with its depth argument, "
+        text="Decides on the MIR of the shipped targets that every panic-capable site reachable from main is one of the inventoried, individually discharged sites (new or moved sites are reported; additions on u32/usize are discharged as a class by a magnitude argument whose visible premises are re-checked), that every recursion is tabled with its depth argument, "
         "that all exits use status 1 and that the script destination is created only after all validation, with no diagnostic exit afterwards. Unbounded recursion depth is reported as known findings. "
         "Does not decide promptness of termination, panics inside dependencies beyond listed contracts, or I/O faults.",
-        note="trusted: rustc's MIR and callee resolution; the discharge arguments in tables/panic_sites.toml and tables/recursion.toml (classes GUARD/KEYOF/ARGUED are confirmed by reading, ARENA/INTERN/EXIT/PHASE re-checked)",
+        note="trusted: rustc's MIR and callee resolution; the discharge arguments in tables/panic_sites.toml and tables/recursion.toml (classes GUARD/KEYOF/ARGUED are confirmed by reading, ARENA/INTERN/EXIT/PHASE re-checked); the magnitude argument of the ARITH class",
         design="5/C06",
     ),
     "C08": dict(
